@@ -9,9 +9,11 @@ from odxgen import values as V
 ID = "C08"
 # LEAN_TARGETS / THEOREMS: filled in by the author of the Lean codec model (planned: OdxVerif.Props.C08 with
 # C08_static_length, C08_prefix, C08_required, C08_free + the regenerated is_required/is_settable table)
-LEAN_TARGETS = ['OdxVerif.Props.C08']
+LEAN_TARGETS = ['OdxVerif.Props.C08', 'OdxVerif.Props.C08Struct']
 DRIVERS = ["drv_codec"]
-THEOREMS = ["OdxVerif.Codec." + t for t in ['C08_static_length_partial', 'C08_required_omission_fails', 'C08_condensed_counterexample', 'C08_nested_cursor_counterexample', 'staticLen_encAll', 'encodeParams_missing']]
+THEOREMS = ["OdxVerif.Codec." + t for t in ['C08_static_length_partial', 'C08_required_omission_fails', 'C08_condensed_counterexample', 'C08_nested_cursor_counterexample', 'staticLen_encAll', 'encodeParams_missing',
+                                             'C08_static_length_struct_partial', 'C08_static_value_struct', 'C08_required_struct_partial', 'C08_const_not_required_partial', 'C08_empty_struct_counterexample',
+                                             'static_length_tree', 'Trees.enc_length', 'Trees.static_eq']]
 RULE = ("well-formed descriptions (harness/odxgen/gen.py: corpus, every BYTE-SIZE structure size x offset, enumerated standard-length DOPs at every "
         "bit position, condensed/plain bit masks, random composites of the full envelope) x accepted value assignments: static length of the "
         "request/response/structure, of every parameter and every nested structure against stand-alone encodings; coded_const_prefix() against "
